@@ -41,11 +41,12 @@ class Heap:
         gcls = R("openfisca_core.entities.group_entity.GroupEntity")
         self.person_entity = Obj(ecls, {"key": "person", "plural": "persons", "is_person": True}, label="entity:person")
         self.group_entity = Obj(gcls, {"key": "household", "plural": "households", "is_person": False}, label="entity:household")
-        self.tbs = Obj(R(E.TBS), {"person_entity": self.person_entity, "group_entities": ListVal([self.group_entity]),
+        self.family_entity = Obj(gcls, {"key": "family", "plural": "families", "is_person": False}, label="entity:family")
+        self.tbs = Obj(R(E.TBS), {"person_entity": self.person_entity, "group_entities": ListVal([self.family_entity, self.group_entity]),
                                   "variables": DictVal()}, label="tbs")
         vcls = R("openfisca_core.variables.variable.Variable")
         self.vars = {n: Obj(vcls, {"name": n, "definition_period": dateunit(I, "month"), "is_neutralized": False}, label="var:" + n)
-                     for n in ("salary", "age", "rent")}
+                     for n in ("salary", "age", "rent", "bonus", "allowance")}
         self.sim = Obj(R(SIM), {}, label="sim")
         self.persons = Obj(R(POP), {"entity": self.person_entity, "simulation": self.sim, "count": B.wrap(ctx.fresh_int("np")),
                                     "ids": ListVal(["a", "b"])}, label="persons")
@@ -53,11 +54,15 @@ class Heap:
                                         "ids": ListVal(["h"]), "members": self.persons,
                                         "_members_entity_id": arr("eid"), "_members_role": arr("roles"),
                                         "_members_position": arr("pos"), "_ordered_members_map": arr("omap")}, label="households")
+        self.families = Obj(R(GPOP), {"entity": self.family_entity, "simulation": self.sim, "count": B.wrap(ctx.fresh_int("nf")),
+                                      "ids": ListVal(["f"]), "members": self.persons,
+                                      "_members_entity_id": arr("feid"), "_members_role": arr("froles"),
+                                      "_members_position": arr("fpos"), "_ordered_members_map": arr("fomap")}, label="families")
         p1 = mk_period(I, "month", mk_instant(I, 2020, 1, 1), 1)
         p2 = mk_period(I, "month", mk_instant(I, 2020, 2, 1), 1)
 
-        def holder(var, pop, disk):
-            mem = Obj(R(MEM), {"_arrays": dict_of([(p1, arr("m1")), (p2, arr("m2"))]), "is_eternal": False}, label=f"mem:{var}")
+        def holder(var, pop, disk, empty=False):
+            mem = Obj(R(MEM), {"_arrays": dict_of([] if empty else [(p1, arr("m1")), (p2, arr("m2"))]), "is_eternal": False}, label=f"mem:{var}")
             dsk = None
             if disk:
                 dsk = Obj(R(DISK), {"_files": dict_of([(p1, f"/tmp/of/{var}/2020-01.npy")]), "_enums": DictVal(), "is_eternal": False,
@@ -68,13 +73,18 @@ class Heap:
         self.h_salary = holder("salary", self.persons, False)
         self.h_age = holder("age", self.persons, with_disk)
         self.h_rent = holder("rent", self.households, False)
-        self.persons.fields["_holders"] = dict_of([("salary", self.h_salary), ("age", self.h_age)])
+        self.h_bonus = holder("bonus", self.persons, False, empty=True)        # a holder that exists but holds nothing yet
+        self.h_allowance = holder("allowance", self.families, False)
+        self.persons.fields["_holders"] = dict_of([("salary", self.h_salary), ("age", self.h_age), ("bonus", self.h_bonus)])
         self.households.fields["_holders"] = dict_of([("rent", self.h_rent)])
+        self.families.fields["_holders"] = dict_of([("allowance", self.h_allowance)])
         tracer = Obj(R("openfisca_core.tracers.simple_tracer.SimpleTracer"), {"_stack": ListVal([])}, label="tracer")
         marks = SetVal()
         self.sim.fields.update({
-            "tax_benefit_system": self.tbs, "populations": dict_of([("person", self.persons), ("household", self.households)]),
-            "persons": self.persons, "person": self.persons, "household": self.households, "invalidated_caches": marks,
+            "tax_benefit_system": self.tbs,
+            "populations": dict_of([("person", self.persons), ("family", self.families), ("household", self.households)]),
+            "persons": self.persons, "person": self.persons, "household": self.households, "family": self.families,
+            "invalidated_caches": marks,
             "debug": False, "_trace": False, "tracer": tracer, "opt_out_cache": False, "max_spiral_loops": 1,
             "memory_config": None, "_data_storage_dir": None})
 
@@ -179,7 +189,7 @@ class HolderClone(_NativeJudge, Contract):
     name = f"{HOLDER}.clone"
     prop = ("C13",)
     top_level = True
-    cases = ("memory-only", "disk-backed")
+    cases = ("memory-only", "disk-backed", "nothing-stored-yet")
     descr = "a cloned holder belongs to the population given, owns its own storages with equal content, shares the variable"
     inline = ("openfisca_core.commons.misc.empty_clone", "openfisca_core.commons.misc.empty_clone.<locals>.__init__",
               MEM + ".*", "openfisca_core.periods.helpers.period*")
@@ -188,7 +198,7 @@ class HolderClone(_NativeJudge, Contract):
         h = Heap(I, ctx)
         newsim = Obj(I.resolve_qualified(SIM), {}, label="sim2")
         newpop = Obj(I.resolve_qualified(POP), {"simulation": newsim, "entity": h.person_entity}, label="persons2")
-        target = h.h_salary if case == "memory-only" else h.h_age
+        target = {"memory-only": h.h_salary, "disk-backed": h.h_age, "nothing-stored-yet": h.h_bonus}[case]
         return {"self": target, "population": newpop, "__heap": h, "__snap": snapshot(reachable_owned(h, h.sim))}
 
     def post(self, I, ctx, a, out, old):
@@ -331,9 +341,9 @@ class SimulationClone(_NativeJudge, Contract):
                         for hk in ho.items:
                             res += holder_checks(I, hn.items[hk], ho.items[hk], newpop, new, f"{nm}-{ho.keyvals[hk]}-")
             res.append(("persons-attribute-is-the-clone-person-population", f.get("persons") is pops.items.get(("c", "person"))))
-            g = pops.items.get(("c", "household"))
-            if isinstance(g, Obj):
-                res.append(("group-members-are-the-clone-persons", g.fields.get("members") is f.get("persons")))
+            for gk in ("family", "household"):
+                g = pops.items.get(("c", gk))
+                res.append((f"{gk}-members-are-the-clone-persons", isinstance(g, Obj) and g.fields.get("members") is f.get("persons")))
         # disjoint footprints
         # (disk storages have their own clauses above)
         mine = {id(o) for o in reachable_owned(h, new, disk=False)}
